@@ -9,6 +9,7 @@ TRUSTED_BASE = [
 ]
 
 BRANCH_NAMES = {
+    'agg': ['too_few', 'plain_median', 'timestamped_median', 'quote', 'mode_value', 'mode_error', 'other_error'],
     'evmint': ['invalid_type', 'unsigned_ok', 'unsigned_out_of_range', 'signed_ok_nonneg', 'signed_ok_neg', 'signed_out_of_range'],
 }
 
@@ -35,6 +36,43 @@ PROPS = {
                    'exhaustive boundary grid plus random values.',
         level_note='Trusted: Coq kernel + vm_compute; hand-written model tied to the code by differential testing (bytes and error kinds); '
                    'tools/srcscan regex extraction; Go regexp/math.big semantics as modelled. Axioms: none (Closed under the global context).',
+    ),
+    'C02': dict(
+        level='proof',
+        projections=[dict(name='agg', args=['-kinds', '0,1'], n_quick=1500, n_thorough=30000)],
+        rule='agg: every assignment of n<=3 (thorough: 4) values from a 4-letter alphabet (all weak orderings) x every tagging with fewer '
+             'faulty than honest values, then structured random cases: f in 0..3 (thorough 0..10), 2f+1..3f+2 values, honest values of one '
+             'kind near a base price in varying representations, faulty values of any type/sign/scale incl. invalid quotes, nested '
+             'timestamped values, nil, negative zero; every case is also run on a random permutation. Distinct by SHA-1 of the input.',
+        explanation='Theorems C02_* prove for every list, f and adversary that the model of MedianAggregator / QuoteAggregator (plain, quote and '
+                    'timestamped medians) and medianTimestamp returns a value between two honest values (numeric order on decimals, proved '
+                    'a total preorder with which Go\'s Cmp is compatible, negative zero included), that quote results are ordered, and that '
+                    'at most f present values give an error. The model is compared with llo.MedianAggregator/QuoteAggregator on generated '
+                    'cases (exact value incl. representation up to 12 values, numeric above), and the property predicate is evaluated on '
+                    'the Go results with the generator\'s honest/faulty tags.',
+        assumptions=['honest observers report values of one type for a stream (needed: see DESIGN.md C02)',
+                     'sort.Slice returns a numerically sorted permutation for a comparator compatible with a total preorder (pdqsort, n>12)'],
+        level_text='Coq theorems (any list length, any f, any faulty values) that the modelled median / quote / timestamped-median aggregators '
+                   'and the outcome timestamp lie between two values supplied by correct observers, quote aggregates are ordered, and <= f '
+                   'present values yield no aggregate; model tied to the Go aggregators by differential testing evaluated in Coq.',
+        level_note='Trusted: Coq kernel + vm_compute; hand-written model of aggregators.go, shopspring/decimal Cmp and math/big sign-magnitude '
+                   'integers; Go sort.Slice modelled as insertion sort (exact for n<=12). Axioms: none.',
+    ),
+    'C15': dict(
+        level='proof',
+        projections=[dict(name='agg', args=['-kinds', '2'], n_quick=1200, n_thorough=30000)],
+        rule='agg(mode): every assignment of n<=3 (thorough 4) values from {1.0, 1, 2, nil} x taggings, then structured random cases with '
+             'honest observers agreeing on one of three candidates, faulty values of any type incl. copies (vote stuffing); each case is also '
+             'run on a random permutation. Distinct by SHA-1 of the input.',
+        explanation='Theorems C15_* prove that the model of ModeAggregator returns a value only if >= f+1 values of the most common type '
+                    'serialise to identical bytes (and then the decoding of exactly those bytes), that with <= f faulty values a correct '
+                    'observer reported it, that the result is invariant under every permutation of the list, and that otherwise it errs. '
+                    'The model (including the protobuf wire encoding used as the comparison key) is compared with llo.ModeAggregator; the '
+                    'predicate is evaluated on the Go results.',
+        assumptions=['proto.Marshal of the quote / timestamped-value messages is as modelled in Wire.v (compared on every run)'],
+        level_text='Coq theorems for all lists and f about the modelled mode aggregator: f+1 byte-identical reports needed, honest witness, '
+                   'permutation invariance (fixed tie-break), error otherwise; model tied to llo.ModeAggregator by differential testing.',
+        level_note='Trusted: Coq kernel + vm_compute; hand-written model incl. protobuf wire encoding of stream values; harness. Axioms: none.',
     ),
 }
 
